@@ -248,6 +248,21 @@ func genCompletion(r *rand.Rand, t *Tree, id int) *CompScn {
 			}
 		}
 	}
+	if chance(r, 0.08) {
+		// a plain word right after the terminator (perhaps one filled positional in between) on a parser with PassDoubleDash
+		words = append(words, "--")
+		if chance(r, 0.4) {
+			words = append(words, pick(r, []string{"alpha", "x", "1"}))
+		}
+		last = pick(r, []string{"", "a", "al", "b", "be", "g"})
+		has := false
+		for _, p := range sc.POpts {
+			has = has || p == "PassDoubleDash"
+		}
+		if !has {
+			sc.POpts = append(sc.POpts, "PassDoubleDash")
+		}
+	}
 	words = append(words, last)
 	sc.Words = toSs(words)
 	for _, g := range t.Root.Extra {
